@@ -464,8 +464,38 @@ fn fs_probe() {
     });
 }
 
+/// `c17 --url-join`: the real `Url::join` (url crate, as re-exported by reqwest and used by http.rs) on a RAW reference —
+/// the scheme / authority / absolute-path branches that `join_rel` keeps lookup paths away from.
+/// Case `J <base scheme hex> <base path hex> <reference hex>`: base `<scheme>://h.test<base path>`.
+/// Answer `OK|<scheme hex>|<username hex>|<host hex>|<port or ->|<path hex>|<base path as parsed, hex>` or `ERR|<error>`.
+fn url_join() {
+    for_each_case(|line| {
+        let mut t = Toks::new(line);
+        let j = t.str();
+        assert_eq!(j, "J", "case starts with J");
+        let scheme = tok(t.str()).expect("scheme");
+        let base_path = tok(t.str()).expect("base path");
+        let reference = tok(t.str()).expect("reference");
+        let base = reqwest::Url::parse(&format!("{}://h.test{}", scheme, base_path)).expect("base url parses");
+        match base.join(&reference) {
+            Ok(u) => format!(
+                "OK|{}|{}|{}|{}|{}|{}",
+                hex(u.scheme().as_bytes()),
+                hex(u.username().as_bytes()),
+                hex(u.host_str().unwrap_or("").as_bytes()),
+                u.port().map(|p| p.to_string()).unwrap_or_else(|| "-".into()),
+                hex(u.path().as_bytes()),
+                hex(base.path().as_bytes())
+            ),
+            Err(e) => format!("ERR|{}", e),
+        }
+    });
+}
+
 fn main() {
-    if std::env::args().any(|a| a == "--url-probe") {
+    if std::env::args().any(|a| a == "--url-join") {
+        url_join();
+    } else if std::env::args().any(|a| a == "--url-probe") {
         url_probe();
     } else if std::env::args().any(|a| a == "--fs-probe") {
         fs_probe();
